@@ -35,6 +35,21 @@ fn heavy_filters(rng: &mut crate::rng::Rng, spec: &core::SchemeSpec, n: usize) -
         "lower(y) == \"abc\" and len(http.host) == 3".into(),
         "lower(http.host) contains \"bc\"".into(),
     ];
+    // large literal sets (anything built lazily from them takes long enough to be raced)
+    let mut big_bytes = String::from("y in {");
+    let mut big_ints = String::from("i in {");
+    let mut big_ips = String::from("p in {");
+    for k in 0..400u32 {
+        big_bytes.push_str(&format!("\"w{k:04}\" "));
+        big_ints.push_str(&format!("{}..{} ", 1000 + 10 * k, 1004 + 10 * k));
+        big_ips.push_str(&format!("10.{}.{}.0/24 ", k / 200, k % 200));
+    }
+    big_bytes.push_str("\"abc\" \"ab\"}");
+    big_ints.push_str("1 2 3}");
+    big_ips.push_str("10.0.0.1}");
+    v.push(big_bytes);
+    v.push(big_ints);
+    v.push(big_ips);
     for _ in 0..n {
         let depth = *rng.pick(&[2u32, 3, 4]);
         let mut g = G::new(rng, spec);
@@ -150,6 +165,55 @@ pub fn run(cfg: Cfg, out: &mut Out) {
                 };
                 out.case(&op, &ans, Some(&op), &["threads", if t >= 16 { "threads.T>=16" } else { "threads.T<16" }]);
             }
+        }
+        // first-use phase: filters compiled just now and never executed are shared, and all
+        // threads execute each of them FOR THE FIRST TIME at the same moment (a barrier per
+        // filter): anything a compiled filter initialises lazily is initialised under a race
+        for rep in 0..(if cfg.quick() { 4 } else { 24 }) {
+            let t = 16usize;
+            let fresh: Arc<Vec<Filter>> =
+                Arc::new(texts.iter().map(|x| spec.parser(&scheme).parse(x).unwrap().compile()).collect());
+            let barrier = Arc::new(Barrier::new(t));
+            let mut hs = Vec::new();
+            for th in 0..t {
+                let (fresh, ctxs, base, barrier, texts) = (fresh.clone(), ctxs.clone(), base.clone(), barrier.clone(), texts.clone());
+                hs.push(std::thread::spawn(move || -> Option<String> {
+                    let mut bad = None;
+                    for fi in 0..fresh.len() {
+                        barrier.wait();
+                        for round2 in 0..2 {
+                            let ci = (th + rep + round2) % ctxs.len();
+                            let got = match core::no_panic(|| fresh[fi].execute(&ctxs[ci])) {
+                                Some(Ok(true)) => "true",
+                                Some(Ok(false)) => "false",
+                                Some(Err(_)) => "exec-err",
+                                None => "panic",
+                            };
+                            if got != base[fi][ci] && bad.is_none() {
+                                bad = Some(format!("thread {th}: first use of freshly compiled {:?} on context {ci} gave {got}, sequential result is {}", texts[fi], base[fi][ci]));
+                            }
+                        }
+                    }
+                    bad
+                }));
+            }
+            let mut bad = None;
+            for h in hs {
+                match h.join() {
+                    Ok(None) => {}
+                    Ok(Some(b)) => bad = Some(b),
+                    Err(_) => bad = Some("a worker thread panicked".to_string()),
+                }
+            }
+            let op = format!("oracle threads-fresh T={t} round={round} rep={rep} filters={}", texts.len());
+            let ans = match &bad {
+                None => "ok".to_string(),
+                Some(b) => {
+                    out.impl_failure(&op, b);
+                    "mismatch".to_string()
+                }
+            };
+            out.case(&op, &ans, Some(&op), &["threads.fresh"]);
         }
         // contention phase: ALL threads hammer ONE shared compiled filter at a time, each thread
         // cycling through the contexts from its own offset, so that executions of the same
